@@ -288,6 +288,7 @@ func exploreNpmDoc(r *ev.Run, d *npmDoc) {
 		return
 	}
 	execute(r, &caseSpec{Kind: "npm", Files: files, Main: "package.json", Family: d.Family}, nil)
+	exploreNpmMixed(r, d, files, reqs)
 	shifts := ev.Pick(r, []int{0}, []int{0, 1, 2})
 	for _, sub := range subsets(len(reqs), 3) {
 		for _, sh := range shifts {
@@ -298,6 +299,66 @@ func exploreNpmDoc(r *ev.Run, d *npmDoc) {
 				us = append(us, updSpec{Name: q.Name, KnownAs: ka, To: npmTargets[(j+sh+idx)%len(npmTargets)]})
 			}
 			execute(r, &caseSpec{Kind: "npm", Files: files, Main: "package.json", Updates: us, Family: d.Family}, nil)
+		}
+	}
+}
+
+// exploreNpmMixed: update LISTS of length 2-3, in every order, mixing valid updates, stale updates
+// (VersionFrom differs from the file) and the update of a package that is not in the file. The pool is
+// built from the first two requirements of the document; every list contains at least one stale or
+// absent element (all-valid lists are the ordinary subsets above).
+func exploreNpmMixed(r *ev.Run, d *npmDoc, files map[string]string, reqs []resolve.RequirementVersion) {
+	if d.Style == 1 || d.Style == 3 { // formatting is irrelevant here: 2-space and minified only
+		return
+	}
+	type slot []updSpec // alternatives for one package
+	var slots []slot
+	for i, q := range reqs {
+		if i >= 2 {
+			break
+		}
+		ka, _ := q.Type.GetAttr(dep.KnownAs)
+		slots = append(slots, slot{
+			{Name: q.Name, KnownAs: ka, To: npmTargets[0]},
+			{Name: q.Name, KnownAs: ka, To: npmTargets[0], From: "^0.0.7"},
+		})
+	}
+	slots = append(slots, slot{{Name: "not-in-the-file", To: npmTargets[0], Absent: true}})
+	special := func(u updSpec) bool { return u.Absent || u.From != "" }
+	for _, sub := range subsets(len(slots), 3) {
+		if len(sub) < 2 {
+			continue
+		}
+		// every choice of alternative per chosen slot
+		choice := make([]int, len(sub))
+		for {
+			var us []updSpec
+			anySpecial := false
+			for j, si := range sub {
+				u := slots[si][choice[j]]
+				us = append(us, u)
+				anySpecial = anySpecial || special(u)
+			}
+			if anySpecial {
+				for pi, pm := range permutations(len(us)) {
+					var ord []updSpec
+					for _, k := range pm {
+						ord = append(ord, us[k])
+					}
+					execute(r, &caseSpec{Kind: "npm", Files: files, Main: "package.json", Updates: ord, Family: d.Family + "+mixed-list", OrderCheck: pi == 0}, nil)
+				}
+			}
+			j := 0
+			for ; j < len(sub); j++ {
+				choice[j]++
+				if choice[j] < len(slots[sub[j]]) {
+					break
+				}
+				choice[j] = 0
+			}
+			if j == len(sub) {
+				break
+			}
 		}
 	}
 }
@@ -485,6 +546,23 @@ func reqString(q resolve.RequirementVersion) string {
 
 func runNpm(cs *caseSpec, dir string) outcome {
 	o := runNpmOnce(cs, dir)
+	if cs.OrderCheck && len(cs.Updates) >= 2 && len(cs.Updates) <= 4 {
+		// the outcome class (error vs. success) must not depend on the order of the update list
+		for _, pm := range permutations(len(cs.Updates))[1:] {
+			alt := *cs
+			alt.Updates = nil
+			for _, k := range pm {
+				alt.Updates = append(alt.Updates, cs.Updates[k])
+			}
+			d2 := newCaseDir()
+			o2 := runNpmOnce(&alt, d2)
+			os.RemoveAll(d2)
+			if (o2.writeErr == "") != (o.writeErr == "") && !hasPanic(o) && !hasPanic(o2) {
+				o.discs = append(o.discs, disc{"npm:outcome-depends-on-update-order", fmt.Sprintf("updates %s: Write error %q, but in the order %s: Write error %q", fmtUpdates(cs.Updates), o.writeErr, fmtUpdates(alt.Updates), o2.writeErr)})
+				break
+			}
+		}
+	}
 	if len(o.discs) == 0 {
 		return o
 	}
@@ -504,6 +582,15 @@ func runNpm(cs *caseSpec, dir string) outcome {
 		}
 	}
 	return o
+}
+
+func hasPanic(o outcome) bool {
+	for _, d := range o.discs {
+		if strings.Contains(d.Key, "panic") || strings.HasPrefix(d.Key, "harness:") {
+			return true
+		}
+	}
+	return false
 }
 
 func isPlainKey(k string) bool {
@@ -609,6 +696,11 @@ func runNpmOnce(cs *caseSpec, dir string) (o outcome) {
 	var pus []result.PackageUpdate
 	expected := append([]string{}, before...)
 	for _, u := range cs.Updates {
+		if u.Absent {
+			// not a requirement of the file: nothing is demanded for it, nothing else may change
+			pus = append(pus, result.PackageUpdate{Name: u.Name, VersionFrom: "^1.0.0", VersionTo: u.To})
+			continue
+		}
 		found := -1
 		for i, q := range reqs {
 			ka, _ := q.Type.GetAttr(dep.KnownAs)
@@ -622,7 +714,15 @@ func runNpmOnce(cs *caseSpec, dir string) (o outcome) {
 			return
 		}
 		q := reqs[found]
-		pus = append(pus, result.PackageUpdate{Name: q.Name, VersionFrom: q.Version, VersionTo: u.To, Type: q.Type.Clone()})
+		from := q.Version
+		if u.From != "" {
+			if u.From == q.Version {
+				bad("harness:stale-update-is-not-stale", "%s from %s", u.Name, u.From)
+				return
+			}
+			from = u.From // stale: if Write succeeds nevertheless, the update has to be applied
+		}
+		pus = append(pus, result.PackageUpdate{Name: q.Name, VersionFrom: from, VersionTo: u.To, Type: q.Type.Clone()})
 		nq := q
 		nq.Version = u.To
 		expected[found] = reqString(nq)
